@@ -279,6 +279,62 @@ def shared_objects_workload(res, ctx, rng):
                 break
 
 
+def threaded_decodes(res, ctx, rng, n_threads=4, per_thread=120, rounds=2):
+    """Several OS threads decode log records at the same time, each its own records with its own string table (the
+    interpreter switches threads every few bytecodes).  Every record still decodes to the fields of its own values."""
+    import sys
+    import threading
+    from pykdebugparser.os_log_event import OsLogEvent
+    work = []
+    for k in range(n_threads):
+        strings = logs.Strings(rng)
+        raws = []
+        site_words = [logs.gen_ti(rng) for _ in range(5)]
+        for i in range(per_thread):
+            raw = logs.gen_event(rng, strings, rng.choice((['p', 'pid', 'ti'], ['ti', 'dm'], ['p', 'pid', 'ti', 'dm', 'send'])))
+            if 'ti' in raw and i % 3:
+                # neighbouring records of one call site carry the same identifier word; other threads carry other words
+                raw['ti'] = site_words[(i // 7) % len(site_words)]
+            raws.append(raw)
+        work.append((raws, strings.inverted()))
+    failures = []
+    barrier = threading.Barrier(n_threads)
+
+    def worker(k):
+        raws, inv = work[k]
+        try:
+            barrier.wait(timeout=30)
+            for _ in range(rounds):
+                for raw in raws:
+                    got = OsLogEvent.from_raw_log_event(logs.fresh(raw), inv)
+                    bad = logs.compare(got, logs.ref_decode(raw, inv))
+                    if bad:
+                        failures.append((k, raw, inv, bad))
+                        return
+        except Exception as x:                                        # noqa
+            failures.append((k, None, None, [(f'raised {x!r} at {core.short_tb(x)}', '', '')]))
+
+    threads = [threading.Thread(target=worker, args=(k,), daemon=True) for k in range(n_threads)]
+    old = sys.getswitchinterval()
+    sys.setswitchinterval(1e-6)
+    try:
+        for t in threads:
+            t.start()
+        for t in threads:
+            t.join(timeout=300)
+    finally:
+        sys.setswitchinterval(old)
+    if any(t.is_alive() for t in threads):
+        res.inconclusive.append('concurrent decodes did not finish within the watchdog')
+        return
+    res.count('records_decoded_by_concurrent_threads', n_threads * per_thread * rounds)
+    if failures:
+        k, raw, inv, bad = failures[0]
+        res.violation('c16-differs-between-concurrent-threads', f'{n_threads} OS threads decoding their own records at the same '
+                      f'time: a record of thread {k} decoded to {[(b[0], str(b[1])[:80], str(b[2])[:80]) for b in bad[:3]]}',
+                      {'raw': raw, 'strings': {str(a): b for a, b in list((inv or {}).items())[:200]}} if raw else {})
+
+
 def end_to_end(res, ctx, rng):
     """The same records through a v3 file and the container parser."""
     from pykdebugparser.kd_buf_parser import KdBufParser
@@ -326,6 +382,8 @@ def run(ctx):
     ti_workload(res, ctx, rng)
     alias_workload(res, ctx, rng)
     shared_objects_workload(res, ctx, rng)
+    for _ in range(ctx.pick(2, 10)):
+        threaded_decodes(res, ctx, rng)
     end_to_end(res, ctx, rng)
     recheck_retained(res)
     if ctx.shard == 0:
@@ -342,6 +400,7 @@ def run(ctx):
     res.require('trace_identifier_words', 200)
     res.require('argument_key_subsets', 64)
     res.require('records_through_v3', 5)
+    res.require('records_decoded_by_concurrent_threads', 1000)
     return res
 
 
